@@ -373,6 +373,15 @@ pub enum Status {
 }
 
 impl Status {
+    /// what a user relies on: end reached / which files are unfinished / stopped otherwise
+    /// (the kind of the stopping error is not part of it)
+    pub fn coarse(&self) -> String {
+        match self {
+            Status::EndOfData => "EndOfOriginalArchiveData".into(),
+            Status::Unfinished(names, _) => format!("Unfinished{names:?}"),
+            Status::Other(_) => "StoppedBeforeEnd".into(),
+        }
+    }
     pub fn class(&self) -> String {
         match self {
             Status::EndOfData => "EndOfOriginalArchiveData".into(),
